@@ -90,6 +90,20 @@ def classify_unaccepted(res):
 def sig_of(prop, res, v):
     """signature of a violation for the known-findings file"""
     d = v["detail"]
+    if v["prop"] == "C04" and isinstance(d, list) and d and d[0] == "under":
+        # classify who references each under-counted cluster in the crash image
+        cls = set()
+        for c, stored, refs in d[1]:
+            for tag, idx, flat, imgk in refs:
+                if tag == 5 and flat == "dd" and imgk in ("d", "zp"):
+                    cls.add("discarded")          # L2 still maps a discarded cluster
+                elif tag == 5 and flat in ("d", "x") and imgk == "zp":
+                    cls.add("prealloc-replaced")  # old zero-prealloc entry still on disk
+                else:
+                    cls.add(f"other:{tag}:{flat}:{imgk}")
+        return "under:" + ",".join(sorted(cls))
+    if v["prop"] == "C04" and isinstance(d, list) and d and d[0] == "tables":
+        return "tables"
     if prop in ("C07",) and isinstance(d, list) and d and d[0] == "Panic":
         return f"panic:{d[1]}"
     return json.dumps(d, sort_keys=True)[:200]
@@ -102,7 +116,7 @@ class Check:
         self.viol_lines = []
         self.known_lines = []
         self.samples = []
-        self.stats = dict(states=0, distinct=0, crash_images=0)
+        self.stats = dict(states=0, distinct=0, crash_images=0, synced_crash_images=0)
         self.nruns = 0
         self.accepted = 0
         self.nontrivial = set()
@@ -165,6 +179,7 @@ class Check:
                    samples=self.samples or [{}], evaluations=self.nruns,
                    distinct_nontrivial=len(self.nontrivial), rule=rule,
                    trace_events=self.events, crash_images=self.stats["crash_images"],
+                   synced_crash_images=self.stats["synced_crash_images"],
                    known_findings=len(self.known_lines))
         cov.update(self.extra)
         if extra:
@@ -248,7 +263,41 @@ def check_C16(chk):
                       BASE_ASSUME)
 
 
-CHECKS = {"C01": check_C01, "C02": check_C02, "C03": check_C03, "C16": check_C16}
+def check_C04(chk):
+    n = 30 if chk.tier == "quick" else 400
+    w = dict(write=45, read=5, discard=12, flush=14, fsync=4, shrink=5, reopen=3)
+    scens = fam_seq(chk.tier, chk.seed, "c04", n, 14 if chk.tier == "quick" else 24, weights=w, sweep_every=0,
+                    geoms=["G1", "G2", "G2k", "G4", "G3a", "G6"])
+    scens += fam_backing(chk.tier, chk.seed, "c04b", n // 3, 10)
+    scens += fam_regress()
+    res, st = Q.run_batch(scens, chk.wd, mode="crash", known=chk.known_tags(), par=14)
+    chk.consume(res, st, props=("C04",))
+    nontrivial_seq(chk, res)
+    return chk.finish("model_checking",
+                      "crash branching in TLC at the end of every fsync epoch and at the end of every recorded run: every subset (per block) of the "
+                      "metadata-relevant un-synced requests (<=10 pairs exhaustive, else subsets of size <=2 and >=n-2), data-only blocks all-kept and all-lost; "
+                      "Inv_C04 = Safe(image) on every distinct crash image",
+                      BASE_ASSUME + ["crash model: a request is durable once an fsync issued after its completion has completed; "
+                                     "per-block independence of un-synced requests; crash images within one fsync epoch are monotone, so only epoch ends are expanded"])
+
+
+def check_C05(chk):
+    n = 30 if chk.tier == "quick" else 400
+    w = dict(write=40, read=3, discard=12, flush=18, fsync=16, shrink=4, reopen=2)
+    scens = fam_seq(chk.tier, chk.seed, "c05", n, 16 if chk.tier == "quick" else 26, weights=w, sweep_every=0,
+                    geoms=["G1", "G2", "G2k", "G4", "G3a", "G6"])
+    scens += fam_backing(chk.tier, chk.seed, "c05b", n // 3, 10)
+    scens += fam_regress()
+    res, st = Q.run_batch(scens, chk.wd, mode="crash", known=chk.known_tags(), par=14)
+    chk.consume(res, st, props=("C05",))
+    nontrivial_seq(chk, res)
+    return chk.finish("model_checking",
+                      "as C04, with Inv_C05 on every distinct crash image: the spec's reader must return for every guest block the value at the last "
+                      "sync point (flush_meta Ok then fsync_range Ok) or a value of an operation issued afterwards",
+                      BASE_ASSUME)
+
+
+CHECKS = {"C04": check_C04, "C05": check_C05, "C01": check_C01, "C02": check_C02, "C03": check_C03, "C16": check_C16}
 
 
 def main():
